@@ -269,7 +269,7 @@ func (e *exec) one(in *inst, toks []string) (ans string) {
 	arg := func(k string) []byte {
 		v, _ := hx.Arg(toks, k)
 		b := bnd(v)
-		if b != nil && scribbleOp(toks[0]) && scribbleAllowed(in.name, toks[0], k) {
+		if b != nil && scribbleOp(toks[0]) && !(k == "v" && toks[0] == "bset" && in.name == "mem" && !findingMemBatchValueAlias) {
 			b = append(make([]byte, 0, len(b)+8), b...) // own backing array with spare capacity
 			lent = append(lent, b)
 		}
@@ -517,27 +517,9 @@ func (e *exec) one(in *inst, toks []string) (ans string) {
 	return "bad-op"
 }
 
-// Open findings of the buffer-reuse family (proposed/C19-caller-buffer-aliasing.md).  While they are undecided the
-// harness does NOT overwrite the buffers in exactly these places, so that the unchanged tree stays green; set a constant
-// to true to see the finding (and after a fix, to keep it fixed).
-const (
-	findingMemValueAlias          = false // MemDB.Set/SetSync/Put (and memBatch through them) store the caller's VALUE slice itself
-	findingBoltBdgBatchKeyAlias   = false // boltBatch and badgerBatch Set/Delete keep the caller's KEY slice until Write
-	findingMemBatchDeleteKeyAlias = false // memBatch.Delete keeps the caller's KEY slice (066aeae copied it in Set only)
-)
-
-func scribbleAllowed(backend, op, field string) bool {
-	if field == "v" && backend == "mem" && !findingMemValueAlias {
-		return false
-	}
-	if field == "k" && (backend == "bolt" || backend == "bdg") && (op == "bset" || op == "bdel") && !findingBoltBdgBatchKeyAlias {
-		return false
-	}
-	if field == "k" && backend == "mem" && op == "bdel" && !findingMemBatchDeleteKeyAlias {
-		return false
-	}
-	return true
-}
+// memBatch.Set kept the caller's value slice until Write (946c5f0 had made MemDB copy the value only when it is STORED);
+// repaired by "fix: memBatch.Set copies the value too" (19bb487): the harness overwrites that buffer too (regression case).
+const findingMemBatchValueAlias = true
 
 func scribbleOp(op string) bool {
 	switch op {
